@@ -613,3 +613,8 @@ Proof.
   - intros v m s Hs. unfold Gen_ds_cifar100_norm.plain_normalise. field. exact Hs.
 Qed.
 Local Close Scope Q_scope.
+
+Lemma preprocessors_process_independent :
+  SH.shakespeare_is_process_independent = true /\ SO.stackoverflow_is_process_independent = true /\
+  EM.emnist_is_process_independent = true.
+Proof. repeat split. Qed.
